@@ -5,6 +5,10 @@ Generates Nq/Gen/Pop3Tab.lean:
   pop3dDefault / popupDefault : String                  handler of the terminating {0, f, 0} entry
   scanSaturates : Bool      msgno()/pop3_top() read numbers with a saturating scanner (scan_ulong_sat)
                             instead of scan_ulong (which wraps modulo 2^64)
+  msgnoStrict : Bool        msgno() refuses a number that is followed by anything but the end of the argument or a space
+                            (`if (!len || (arg[len] && arg[len] != ' '))`) instead of ignoring what follows the digits
+  retrWhole : Bool          RETR has its own handler that never applies a line limit (dotop(arg,0)) instead of sharing
+                            pop3_top() with TOP (then "RETR n k" behaved as "TOP n k")
   tmpMaxAge : Nat           maildir_clean(): seconds after which an unaccessed tmp/ file is removed
 """
 import re
@@ -47,10 +51,38 @@ def generate(repo):
     cu, du = table(pu, "qmail-popup.c")
 
     m = re.search(r"\nint msgno\(arg\) char \*arg;\n\{(.*?)\n\}\n", p3, re.S)
+    if not m:
+        raise ExtractError("qmail-pop3d.c: msgno() not found")
+    handlers = dict(c3)
+    # the handler of RETR/TOP: either one shared pop3_top(arg), or dotop(arg,flagtop) with two one-line wrappers
     t = re.search(r"\nvoid pop3_top\(arg\) char \*arg;\n\{(.*?)\n\}\n", p3, re.S)
-    if not m or not t:
-        raise ExtractError("qmail-pop3d.c: msgno() or pop3_top() not found")
-    calls = re.findall(r"\b(scan_[a-z0-9_]+)\s*\(", m.group(1) + t.group(1))
+    d = re.search(r"\nvoid dotop\(arg,flagtop\) char \*arg; int flagtop;\n\{(.*?)\n\}\n", p3, re.S)
+    if t and not d:
+        body = t.group(1)
+        if handlers.get("retr") != "pop3_top" or handlers.get("top") != "pop3_top":
+            raise ExtractError("qmail-pop3d.c: RETR/TOP handlers not recognised: %r %r" % (handlers.get("retr"), handlers.get("top")))
+        if not re.search(r"if \(scan_ulong(_sat)?\(arg,&limit\)\) \+\+limit; else limit = 0;", body):
+            raise ExtractError("qmail-pop3d.c: pop3_top(): limit computation not recognised")
+        retr_whole = False
+    elif d and not t:
+        body = d.group(1)
+        if handlers.get("retr") != "pop3_retr" or handlers.get("top") != "pop3_top" \
+                or not re.search(r"\nvoid pop3_retr\(arg\) char \*arg; \{ dotop\(arg,0\); \}\n", p3) \
+                or not re.search(r"\nvoid pop3_top\(arg\) char \*arg; \{ dotop\(arg,1\); \}\n", p3):
+            raise ExtractError("qmail-pop3d.c: RETR/TOP handlers not recognised: %r %r" % (handlers.get("retr"), handlers.get("top")))
+        if not re.search(r"if \(flagtop && scan_ulong(_sat)?\(arg,&limit\)\) \+\+limit; else limit = 0;", body):
+            raise ExtractError("qmail-pop3d.c: dotop(): limit computation not recognised")
+        retr_whole = True
+    else:
+        raise ExtractError("qmail-pop3d.c: pop3_top()/dotop() not found")
+    mb = m.group(1)
+    if re.search(r"\n  if \(!scan_ulong(_sat)?\(arg,&u\)\) \{ err_syntax\(\); return -1; \}\n", mb):
+        strict = False
+    elif re.search(r"\n  len = scan_ulong(_sat)?\(arg,&u\);\n  if \(!len \|\| \(arg\[len\] && arg\[len\] != ' '\)\) \{ err_syntax\(\); return -1; \}\n", mb):
+        strict = True
+    else:
+        raise ExtractError("qmail-pop3d.c: msgno(): syntax test not recognised")
+    calls = re.findall(r"\b(scan_[a-z0-9_]+)\s*\(", mb + body)
     if len(calls) != 3 or len(set(calls)) != 1 or calls[0] not in ("scan_ulong", "scan_ulong_sat"):
         raise ExtractError("qmail-pop3d.c: msgno()/pop3_top(): number scanning not recognised: %r" % calls)
     sat = calls[0] == "scan_ulong_sat"
@@ -69,6 +101,8 @@ def generate(repo):
     out += lean_table("pop3dCmds", c3) + "def pop3dDefault : String := \"%s\"\n\n" % d3
     out += lean_table("popupCmds", cu) + "def popupDefault : String := \"%s\"\n\n" % du
     out += "def scanSaturates : Bool := %s\n" % ("true" if sat else "false")
+    out += "def msgnoStrict : Bool := %s\n" % ("true" if strict else "false")
+    out += "def retrWhole : Bool := %s\n" % ("true" if retr_whole else "false")
     out += "def tmpMaxAge : Nat := %s\n" % a.group(1)
     out += "\nend Nq.Gen.Pop3Tab\n"
     return {"Pop3Tab": out}
